@@ -249,10 +249,14 @@ NEST_DOCS = ('int', 'null', 'dict')
 
 def dump(scope):
     items = [('var', ''), ('var', '2'), ('var', 'x'), ('var', 'y')]
+    # every defined function / delegate is invoked twice, the second time with fewer arguments: an invocation
+    # must not see the arguments of an earlier one ($2 is null in the second call)
     if 'f' in scope:
-        items.append(('call', 'f', [('lit', 5)], []))
+        items.append(('call', 'f', [('lit', 5), ('lit', 6)], []))
+        items.append(('call', 'f', [('lit', 7)], []))
     if 'g' in scope:
-        items.append(('dcall', ('var', 'g'), [('lit', 5)]))
+        items.append(('dcall', ('var', 'g'), [('lit', 5), ('lit', 6)]))
+        items.append(('dcall', ('var', 'g'), [('lit', 7)]))
     return ('list', items)
 
 
@@ -271,9 +275,9 @@ def binders(vals):
         add('', lambda b, v=v: ('meth', ('list', [v, ('lit', 9)]), 'select', [b]))
         # a predicate only passes one bit: does the body's value contain a null (an unbound variable)?
         add('', lambda b, v=v: ('meth', ('list', [v, ('lit', 9)]), 'where', [('bin', 'in', ('lit', None), b)]))
-        add('f', lambda b, v=v: ('arrow', ('call', 'def', [('lit', 'f'), ('list', [('var', ''), v])], []), b))
+        add('f', lambda b, v=v: ('arrow', ('call', 'def', [('lit', 'f'), ('list', [('var', ''), ('var', '2'), v])], []), b))
         add('', lambda b, v=v: ('dcall', ('call', 'lambda', [b], []), [v]))
-        add('g', lambda b, v=v: ('arrow', ('call', 'let', [], [['g', ('call', 'lambda', [('list', [('var', ''), v])], [])]]), b))
+        add('g', lambda b, v=v: ('arrow', ('call', 'let', [], [['g', ('call', 'lambda', [('list', [('var', ''), ('var', '2'), v])], [])]]), b))
     # arguments are evaluated in the caller's frame: y reads the outer $x
     add('', lambda b: ('arrow', ('call', 'let', [], [['x', ('lit', 3)], ['y', ('var', 'x')]]), b))
     add('', lambda b: ('arrow', ('call', 'let', [], [['y', ('var', 'x')]]), b))
